@@ -419,7 +419,7 @@ reg("C17", needs_cli=True,
              10: "series at or below the threshold (or threshold 0) changed", 11: "threshold 1 or 2 with a longer series not rejected", 12: "downsampling failed or panicked", 13: "not exactly threshold points",
              14: "not a subsequence of the input", 15: "first or last point missing"},
     diffs={30: "model and implementation disagree on whether adding fails", 31: "series differ from the model's", 40: "LTTB output or requested chunk sizes differ from the model with exact rational bucket bounds", 41: "LTTB chunk sizes / picked buckets differ both from the exact rational bounds and from the bounds as computed in binary64 (Base/F64.v)"},
-    assumptions=["go-tsz compression is assumed lossless (sampled)", "bucket bounds are modelled with exact rationals (the theorems); the code computes them in float64: where the two differ (about one (count, threshold) pair in a thousand) the real code is judged against the same bounds computed by a reference model of the three binary64 operations involved (Base/F64.v: round-to-nearest-even division, multiplication by an integer, truncation; unverified, compared on every run)",
+    assumptions=["go-tsz compression is assumed lossless (sampled)", "bucket bounds are modelled with exact rationals (the theorems); the code computes them in float64: where the two differ (about one (count, threshold) pair in a thousand) the real code is judged against the same bounds computed by a reference model of the three binary64 operations involved (Base/F64.v: round-to-nearest-even division, multiplication by an integer, truncation; f64_rounding_nearest proves that its rounding returns a 53-bit mantissa within half a unit in the last place; that this is what the Go compiler's float64 arithmetic does is compared on every run)",
                  "x is compared in whole milliseconds and y in whole nanoseconds after rounding the plotted floats"],
     level_text="plot_one_point_each is proved in Coq for every result set in the property's domain and EVERY permutation of arrival (invariant of the re-ordering buffer, unbounded); rows_sorted, lttb_identity, lttb_rejects_1_2, lttb_structure (any selection oracle) and lttb_buckets_exact are proved for all counts and thresholds with exact rational bucket bounds. Tie: differential runs through the exported plot API (HTML data block parsed back) and lttb.Downsample with a recording iterator.",
     technique="Coq invariant proof of the re-ordering buffer over all permutations; structural LTTB proof; differential correspondence",
